@@ -389,6 +389,7 @@ def run_cases(ctx, cases):
                                               "" if c["api"] == "whole" or c["make_whole"] else "/nowhole",
                                               "/explicit" if c["anchors"] is not None else ""))
         for desc, detail, code in fails:
+            sp = split_of.get((ci, detail["frame"])) if isinstance(detail, dict) and "frame" in detail else None
             # a split bond is the known defect when the model predicts one for the bond order as found and none for the
             # repaired order (make_whole stage not fragile), and the run as a whole follows the as-found model
             explained = KNOWN_VARIANT if (desc == "bonded pair left split" and sp == 1 and variant == KNOWN_VARIANT) else None
